@@ -132,7 +132,7 @@ def obligations(tier, seed):
         name = os.path.basename(path).replace(".", "_").replace("-", "_")
         is_must = os.path.basename(path) in ("empty.sunvox", "metamodule-option-78.sunsynth", "amplifier.sunsynth", "metamodule.sunsynth")
         for mode in ("raise", "eof", "cancel") if is_must else ("raise", "eof"):
-            seg = (100 if R_ <= 200 else 50) if mode == "eof" else 40
+            seg = (100 if R_ <= 100 else 50) if mode == "eof" else 40
             for by_path in ((True,) if (tier == "quick" and mode == "eof") or mode == "cancel" else (True, False)):
                 for lo in range(1, R_ + 2, seg):
                     hi = min(R_ + 1, lo + seg - 1)
